@@ -111,6 +111,18 @@ claim("C13", "other", "provenance normal forms of the record-yielding outcomes o
       "Partial: resolution over arbitrary record graphs as a whole is behavioural and not decided. Trusted: C02 (record decoding, index/is_hidden), C15 (string lookup), C16 (termination).",
       "DESIGN.md 5/C13")
 
+claim("C11", "other", "dominance/fact rule on the symbol-yielding outcomes; provenance normal forms of the lookup guards and of the section layout; ring-normal-form (Z/2^32) template of the hash step",
+      "Soundness for any table bytes (returned symbol is symtab[returned index] and its name compared equal on that path); the lookup uses the GNU format's linkage "
+      "(class-sized bloom words, both bloom bits on the same word, bucket, chain start = bucket - symoffset, hash|1 comparison, stop bit, index = chain index + symoffset, section "
+      "layout of GnuHashTable::new); gnu_hash is seed 5381, h*33 + zero-extended byte mod 2^32 over the name bytes in order.",
+      "Partial: completeness on well-formed tables as a whole is behavioural and not decided. Trusted: C02, C09, C15, C16; slice equality in core.",
+      "DESIGN.md 5/C11")
+claim("C12", "other", "dominance/fact rule on the symbol-yielding outcomes; provenance of the chain walk and of the section layout; ring-normal-form template of the linear part of the hash step",
+      "Soundness for any table bytes; the lookup starts at buckets[hash % nbucket], follows chains[index], stops on index 0, returns None early exactly for an empty bucket array; "
+      "SysVHashTable::new places buckets and chains after the 8-byte header; sysv_hash is the folded gABI elf_hash (h = h*16 + c; h ^= (h >> 24) & 0xf0; result & 0x0fffffff).",
+      "Partial: completeness as a whole not decided; a hash written in a non-enumerated form is reported UNRECOGNISED rather than judged. Trusted: C02, C09, C15, C16.",
+      "DESIGN.md 5/C12")
+
 for pid in ["C01", "C02", "C03", "C04", "C05", "C06", "C07", "C08", "C09", "C10", "C11", "C12", "C13", "C14", "C15", "C16", "C17", "C18", "C20"]:
     if pid not in CLAIMS:
         na(pid, "static rule designed (DESIGN.md section 5) but its checker is not built yet in this revision; not claimed until it runs silent on the tree and fires on control mutants")
